@@ -35,6 +35,8 @@ def expected(spec: dict) -> dict:
         node(a)
         node(b)
         if (a, b) in edges:
+            if {k: v for k, v in edges[(a, b)].items() if k != '_dup'} == attrs:
+                return      # the same mark declared again (a named switch shared by several consumers): idempotent
             edges[(a, b)] = dict(edges[(a, b)], **attrs, _dup=True)
         else:
             edges[(a, b)] = attrs
@@ -157,6 +159,9 @@ def variants(spec: dict, tier: str) -> t.Iterator[t.Tuple[str, dict]]:
         for n in gen_ok:
             sp['nodes'][n]['generic'] = 'SharedBase'
         yield 'generic-shared-base', sp
+    shared = S.share_switch_names(spec)
+    if shared is not None:
+        yield 'shared-named-switch', shared
     # unnamed switches (uuid-suffixed ids)
     if 'switch' in S.kinds_used(spec):
         sp = json.loads(json.dumps(spec))
